@@ -699,3 +699,74 @@ Example equal_but_distinct_example :
   fst (repr h (VRef 0) (clean [])) = Ok "B(x=B(x=B(x=1)))" /\
   fst (repr h (VRef 8) (clean [])) = Ok "B(x={1: B(x=(B(x=[B(x=B(x=B(x=1)))]),))})".
 Proof. split; reflexivity. Qed.
+
+(** ** Truthiness of the [repr=] object is irrelevant
+
+    The filter of [_make_repr_script] is [a.repr is not False]; a callable object that
+    happens to be falsy (empty callable dict subclass, [__bool__] returning False) is a
+    custom repr callable like any other.  Heaps that differ only in [f_truthy] render
+    identically. *)
+
+Definition set_truthy (t : bool) (f : field) : field := FT (f_name f) (f_repr f) (f_init f) t.
+
+Definition erase_truthy (x : obj) : obj :=
+  match x with
+  | OI qn sf bs fs attrs => OI qn sf bs (map (set_truthy true) fs) attrs
+  | y => y
+  end.
+
+Lemma enabled_ignores_truthiness t f : enabled (set_truthy t f) = enabled f.
+Proof. reflexivity. Qed.
+
+Lemma anr_truthy t fs : attr_names_with_reprs (map (set_truthy t) fs) = attr_names_with_reprs fs.
+Proof.
+  induction fs as [|f fs IH]; cbn; [reflexivity|]. rewrite IH. reflexivity.
+Qed.
+
+Lemma compile_erase h o : compile (map erase_truthy h) o = compile h o.
+Proof.
+  unfold compile. rewrite nth_error_map. destruct (nth_error h o) as [x|]; [|reflexivity].
+  destruct x; cbn; try reflexivity. unfold make_repr_script. now rewrite anr_truthy.
+Qed.
+
+Section Ext.
+  Variables rec1 rec2 : value -> tstate -> res * tstate.
+  Hypothesis Hext : forall v st, rec1 v st = rec2 v st.
+
+  Lemma render_ext w v st : render rec1 w v st = render rec2 w v st.
+  Proof.
+    unfold render. destruct w; [apply Hext | reflexivity |].
+    destruct (pop_fault st) as [f st1]. destruct f; [reflexivity|]. now rewrite Hext.
+  Qed.
+
+  Lemma run_parts_ext ps : forall acc st, run_parts rec1 ps acc st = run_parts rec2 ps acc st.
+  Proof.
+    induction ps as [|p ps IH]; intros acc st; cbn; [reflexivity|].
+    destruct p; [apply IH | | reflexivity]. rewrite render_ext.
+    destruct (render rec2 w v st) as [x st1]. destruct x; [apply IH | reflexivity | reflexivity].
+  Qed.
+End Ext.
+
+Lemma repr_val_erase h : forall n v st, repr_val (map erase_truthy h) n v st = repr_val h n v st.
+Proof.
+  induction n as [|n IH]; intros v st; cbn; [reflexivity|].
+  unfold repr_body, repr_obj. destruct v as [o|]; [|reflexivity]. rewrite compile_erase.
+  destruct (compile h o) as [[s|g marker ps]|]; try reflexivity.
+  destruct (enter g o st) as [st1|]; [|reflexivity].
+  now rewrite (run_parts_ext _ _ IH).
+Qed.
+
+Lemma repr_ignores_callable_truthiness_l h1 h2 v st :
+  map erase_truthy h1 = map erase_truthy h2 -> repr h1 v st = repr h2 v st.
+Proof.
+  intros H. unfold repr, fuel_for.
+  rewrite <- (repr_val_erase h1), <- (repr_val_erase h2), H.
+  replace (List.length h1) with (List.length h2); [reflexivity|].
+  rewrite <- (map_length erase_truthy h2), <- H. apply map_length.
+Qed.
+
+Example falsy_callable_still_listed :
+  fst (repr [OI "C" false None [F "a" RTrue true; FT "x" (RLeaf "L") true false; F "z" RTrue true]
+                [("a", 1); ("x", 1); ("z", 1)]; OS "1"] (VRef 0) (clean []))
+  = Ok "C(a=1, x=L, z=1)".
+Proof. reflexivity. Qed.
